@@ -984,12 +984,15 @@ def rand_image(ctx, d, kind, shape=None):
     if kind == "S2pos":
         shape = shape or (rnd.randint(3, 5), rnd.randint(3, 5))
         return d.ScalarImage(r.randint(1, 5, size=shape).astype(float), dimensions=[1.0, 1.0])
-    if kind in ("O2u8", "O2f32"):
+    if kind in ("O2u8", "O2f32", "O2f64"):
+        # optical images of every pixel type (float64 is what imread returns), held in RGB or BGR
         shape = shape or (rnd.randint(3, 6), rnd.randint(3, 6))
         data = r.randint(0, 256, size=shape + (3,)).astype(np.uint8)
         if kind == "O2f32":
             data = (data / 255.0).astype(np.float32)
-        return d.OpticalImage(data, dimensions=dims2(2), color_space="RGB")
+        if kind == "O2f64":
+            data = data / 255.0
+        return d.OpticalImage(data, dimensions=dims2(2), color_space=rnd.choice(["RGB", "RGB", "BGR"]))
     if kind == "V2":
         shape = shape or (rnd.randint(2, 5), rnd.randint(2, 5))
         return d.Image(r.randint(0, 9, size=shape + (2,)).astype(float), dimensions=dims2(2), scalar=False)
@@ -1016,7 +1019,7 @@ def twin(ctx, d, img):
     return t
 
 
-KINDS = ["S2", "S2u8", "S2f32", "S2b", "S2u16", "O2u8", "O2f32", "V2", "S2s", "S2sd", "S2sn", "S3", "S1"]
+KINDS = ["S2", "S2u8", "S2f32", "S2b", "S2u16", "O2u8", "O2f32", "O2f64", "V2", "S2s", "S2sd", "S2sn", "S3", "S1"]
 NUMERIC = ["S2", "S2u8", "S2f32", "S2u16", "V2", "S2s", "S3", "S1", "O2f32"]
 
 
@@ -1077,21 +1080,21 @@ def registry(d):
     # conversions ----------------------------------------------------------------------------
     for name, ty in [("float", float), ("float32", np.float32), ("uint8", np.uint8), ("int", int), ("bool", bool),
                      ("uint16", np.uint16), ("float64", np.float64)]:
-        R[f"astype[{name}]"] = (["S2", "S2u8", "S2f32", "O2u8", "V2", "S2s", "S3"], (lambda ty: lambda ctx, a: ((lambda: a.astype(ty)), [a]))(ty))
+        R[f"astype[{name}]"] = (["S2", "S2u8", "S2f32", "O2u8", "O2f64", "V2", "S2s", "S3"], (lambda ty: lambda ctx, a: ((lambda: a.astype(ty)), [a]))(ty))
     R["astype[ScalarImage]"] = (["S2", "S3"], lambda ctx, a: ((lambda: a.astype(d.ScalarImage)), [a]))
     for name, ty in [("float", float), ("float32", np.float32), ("float64", np.float64), ("uint8", np.uint8),
                      ("uint16", np.uint16), ("bool", bool)]:
-        R[f"img_as[{name}]"] = (["S2u8", "S2u16", "O2u8", "O2f32", "S2b"], (lambda ty: lambda ctx, a: ((lambda: a.img_as(ty)), [a]))(ty))
+        R[f"img_as[{name}]"] = (["S2u8", "S2u16", "O2u8", "O2f32", "O2f64", "S2b"], (lambda ty: lambda ctx, a: ((lambda: a.img_as(ty)), [a]))(ty))
     for cs in ["HSV", "BGR", "RGB", "LAB", "HLS"]:
-        R[f"to_trichromatic[{cs}]"] = (["O2u8", "O2f32"], (lambda cs: lambda ctx, a: ((lambda: a.to_trichromatic(cs, return_image=True)), [a]))(cs))
+        R[f"to_trichromatic[{cs}]"] = (["O2u8", "O2f32", "O2f64"], (lambda cs: lambda ctx, a: ((lambda: a.to_trichromatic(cs, return_image=True)), [a]))(cs))
     for key in ["gray", "red", "green", "blue", "hue", "saturation", "value"]:
-        R[f"to_monochromatic[{key}]"] = (["O2u8", "O2f32"], (lambda key: lambda ctx, a: ((lambda: a.to_monochromatic(key)), [a]))(key))
+        R[f"to_monochromatic[{key}]"] = (["O2u8", "O2f32", "O2f64"], (lambda key: lambda ctx, a: ((lambda: a.to_monochromatic(key)), [a]))(key))
     R["copy"] = (KINDS, lambda ctx, a: ((lambda: a.copy()), [a]))
     R["metadata"] = (KINDS, lambda ctx, a: ((lambda: a.metadata()), [a]))
     R["shape_metadata"] = (KINDS, lambda ctx, a: ((lambda: a.shape_metadata()), [a]))
 
     # extraction -----------------------------------------------------------------------------
-    @form("subregion[slices]", ["S2", "S2u8", "O2u8", "V2", "S2s", "S3", "S1"])
+    @form("subregion[slices]", ["S2", "S2u8", "O2u8", "O2f64", "V2", "S2s", "S3", "S1"])
     def _(ctx, a):
         roi = []
         for n in a.img.shape[: a.space_dim]:
@@ -1243,7 +1246,7 @@ def registry(d):
         return (lambda: d.stack(lst)), [lst]
 
     # resize ---------------------------------------------------------------------------------
-    @form("resize[shape]", ["S2", "S2f32", "S2u8", "O2u8", "V2"])
+    @form("resize[shape]", ["S2", "S2f32", "S2u8", "O2u8", "O2f64", "V2"])
     def _(ctx, a):
         shp = (ctx.rng.randint(2, 7), ctx.rng.randint(2, 7))
         return (lambda: d.resize(a, shape=shp, interpolation=ctx.rng.choice([None, "inter_area", "inter_nearest"]))), [a, shp]
@@ -1495,7 +1498,7 @@ def chains(ctx, d, R, n):
     snapshotted when it appears and must be unchanged after every later call"""
     names = sorted(R)
     for c in range(n):
-        kind = ctx.rng.choice(["S2", "S2", "S2f32", "S2s", "S2sd", "S2sn", "S3", "O2u8", "V2", "S2u8"])
+        kind = ctx.rng.choice(["S2", "S2", "S2f32", "S2s", "S2sd", "S2sn", "S3", "O2u8", "O2f64", "O2f32", "V2", "S2u8"])
         pool = [rand_image(ctx, d, kind)]
         pool.append(twin(ctx, d, pool[0]))
         tracked = [(x, snap(x, d), "operand") for x in pool]
